@@ -226,3 +226,96 @@ func addrPath(fa *ssa.FieldAddr, d int, seen map[ssa.Value]bool) string {
 	}
 	return exprD(fa.X, d+1, seen) + "." + FieldAddrRef(fa).Name
 }
+
+// Cmp is a comparison in canonical form: Op is "<" or "=="; for "==" the operands are sorted; Neg means the value is
+// the negation of `X Op Y`. `a > b` is {"<", b, a}; `a <= b` is the negation of {"<", b, a}; `a != b` is the negation
+// of "=="; any number of `!` in front flips Neg.
+type Cmp struct {
+	Op   string
+	X, Y string
+	XV   ssa.Value
+	YV   ssa.Value
+	Neg  bool
+}
+
+// CmpOf puts a boolean SSA value that is a (possibly negated) comparison into canonical form.
+func CmpOf(v ssa.Value) (Cmp, bool) {
+	neg := false
+	for {
+		u, ok := v.(*ssa.UnOp)
+		if ok && u.Op == token.NOT {
+			v = u.X
+			neg = !neg
+			continue
+		}
+		break
+	}
+	b, ok := v.(*ssa.BinOp)
+	if !ok {
+		return Cmp{}, false
+	}
+	c := Cmp{XV: b.X, YV: b.Y}
+	switch b.Op {
+	case token.LSS:
+		c.Op = "<"
+	case token.GTR:
+		c.Op, c.XV, c.YV = "<", b.Y, b.X
+	case token.LEQ:
+		c.Op, c.XV, c.YV, neg = "<", b.Y, b.X, !neg
+	case token.GEQ:
+		c.Op, neg = "<", !neg
+	case token.EQL:
+		c.Op = "=="
+	case token.NEQ:
+		c.Op, neg = "==", !neg
+	default:
+		return Cmp{}, false
+	}
+	c.X, c.Y = Expr(c.XV), Expr(c.YV)
+	if c.Op == "==" && c.Y < c.X {
+		c.X, c.Y, c.XV, c.YV = c.Y, c.X, c.YV, c.XV
+	}
+	c.Neg = neg
+	return c, true
+}
+
+// CondForms renders the equivalent spellings of "cond evaluated to val": each entry is an expression text and the
+// truth value it has on that edge (operands swapped, operator negated).
+func CondForms(cond ssa.Value, val bool) []struct {
+	Text string
+	Val  bool
+} {
+	type tv = struct {
+		Text string
+		Val  bool
+	}
+	out := []tv{{Expr(cond), val}}
+	v := cond
+	for {
+		u, ok := v.(*ssa.UnOp)
+		if ok && u.Op == token.NOT {
+			v = u.X
+			val = !val
+			out = append(out, tv{Expr(v), val})
+			continue
+		}
+		break
+	}
+	b, ok := v.(*ssa.BinOp)
+	if !ok {
+		return out
+	}
+	flip := map[token.Token]token.Token{token.LSS: token.GTR, token.GTR: token.LSS, token.LEQ: token.GEQ, token.GEQ: token.LEQ, token.EQL: token.EQL, token.NEQ: token.NEQ}
+	negate := map[token.Token]token.Token{token.LSS: token.GEQ, token.GEQ: token.LSS, token.GTR: token.LEQ, token.LEQ: token.GTR, token.EQL: token.NEQ, token.NEQ: token.EQL}
+	if _, isCmp := flip[b.Op]; !isCmp {
+		return out
+	}
+	x, y := Expr(b.X), Expr(b.Y)
+	form := func(a string, op token.Token, c string) string { return "(" + a + " " + op.String() + " " + c + ")" }
+	out = append(out,
+		tv{form(y, flip[b.Op], x), val},
+		tv{form(x, negate[b.Op], y), !val},
+		tv{form(y, flip[negate[b.Op]], x), !val},
+	)
+	return out
+}
